@@ -10,8 +10,12 @@ import (
 	"context"
 	"io"
 	"log/slog"
+	"path"
 
+	"github.com/nginx/kubernetes-ingress/internal/configs/version1"
+	"github.com/nginx/kubernetes-ingress/internal/configs/version2"
 	nl "github.com/nginx/kubernetes-ingress/internal/logger"
+	"github.com/nginx/kubernetes-ingress/internal/nginx"
 )
 
 // VerifC14Upstream is one generated upstream block.
@@ -81,4 +85,43 @@ func VerifC14TransportServerUpstreams(tsEx *TransportServerEx, isPlus, isResolve
 // The placeholder constants the generators use when a backend has no endpoint.
 func VerifC14Placeholders() (vs502, ingressDefault, streamNonExisting string) {
 	return nginx502Server, "127.0.0.1:8181", nginxNonExistingUnixSocket
+}
+
+// VerifC14Context is a context carrying a logger that discards everything.
+func VerifC14Context() context.Context { return verifC14Ctx() }
+
+// VerifC14NewConfigurator builds the production Configurator (NewConfigurator with the
+// production templates of repoDir) over the given Manager; reloads are enabled by the
+// controller's first sync as in production.
+func VerifC14NewConfigurator(repoDir string, mgr nginx.Manager, plus bool) (*Configurator, error) {
+	d := path.Join(repoDir, "internal", "configs")
+	main, ing, vs, ts := "nginx.tmpl", "nginx.ingress.tmpl", "nginx.virtualserver.tmpl", "nginx.transportserver.tmpl"
+	if plus {
+		main, ing, vs, ts = "nginx-plus.tmpl", "nginx-plus.ingress.tmpl", "nginx-plus.virtualserver.tmpl", "nginx-plus.transportserver.tmpl"
+	}
+	te, err := version1.NewTemplateExecutor(path.Join(d, "version1", main), path.Join(d, "version1", ing))
+	if err != nil {
+		return nil, err
+	}
+	te2, err := version2.NewTemplateExecutor(path.Join(d, "version2", vs), path.Join(d, "version2", ts))
+	if err != nil {
+		return nil, err
+	}
+	ctx := verifC14Ctx()
+	static := &StaticConfigParams{
+		NginxStatus:           true,
+		NginxStatusAllowCIDRs: []string{"127.0.0.1"},
+		NginxStatusPort:       8080,
+		NginxVersion:          nginx.NewVersion("nginx version: nginx/1.25.3 (nginx-plus-r31)"),
+	}
+	return NewConfigurator(ConfiguratorParams{
+		NginxManager:       mgr,
+		StaticCfgParams:    static,
+		Config:             NewDefaultConfigParams(ctx, plus),
+		MGMTCfgParams:      NewDefaultMGMTConfigParams(ctx),
+		TemplateExecutor:   te,
+		TemplateExecutorV2: te2,
+		IsPlus:             plus,
+		NginxVersion:       static.NginxVersion,
+	}), nil
 }
